@@ -9,6 +9,7 @@ def corpus_cases(pid):
     d = os.path.join(ROOT, 'corpus', pid); out = []
     if os.path.isdir(d):
         for fn in sorted(os.listdir(d)):
+            if not fn.endswith('.cases'): continue
             for ln in open(os.path.join(d, fn)):
                 ln = ln.strip()
                 if ln and not ln.startswith('#'): out.append(ln)
